@@ -283,6 +283,27 @@ def other_notations(ctx):
         if not ok:
             ctx.violation(f'C12|notation|{shape}', f'a {shape} row is read as {got}, expected {want}', {'shape': shape, 'x': x, 'y': y, 'r': r, 'rotang': rot})
     ctx.traces += len(cases)
+    # a table that has no ROTANG column at all (circles, points, unrotated boxes; an ellipse row in it lacks a column and is skipped with a
+    # warning - alone): the rows that need no angle are read, and what is read here leaves nothing behind for later tables
+    t = QTable()
+    t['SHAPE'] = ['circle', 'box', 'point', 'annulus', '!box', 'ellipse']
+    t['X'] = [[10.0, 0], [10.0, 0], [3.0, 0], [5.0, 0], [7., 0], [9., 0]] * u.pix
+    t['Y'] = [[12.0, 0], [12.0, 0], [4.0, 0], [6.0, 0], [8., 0], [9., 0]] * u.pix
+    t['R'] = [[4.0, 0], [4.0, 2.0], [0., 0], [1., 3.], [2., 2.], [3., 2.]] * u.pix
+    want = [{'cls': 'circle', 'x': [40], 'y': [48], 'r': [16]}, {'cls': 'rectangle', 'x': [40], 'y': [48], 'r': [16, 8], 'ang': 0},
+            {'cls': 'point', 'x': [12], 'y': [16]}, {'cls': 'cannulus', 'x': [20], 'y': [24], 'r': [4, 12]},
+            {'cls': 'rectangle', 'x': [28], 'y': [32], 'r': [8, 8], 'ang': 0, 'inc': '0'}]
+    ctx.case(('notation', 'no-ROTANG-column'), True)
+    try:
+        with warnings.catch_warnings():
+            warnings.simplefilter('ignore')
+            got = [project(r_) for r_ in Regions.parse(t, format='fits')]
+        ok = len(got) == len(want) and all(all(g[k] == v for k, v in w.items()) for g, w in zip(got, want))
+    except Exception as ex:  # noqa
+        ok, got = False, repr(ex)
+    if not ok:
+        ctx.violation('C12|notation|no-rotang-column', f'a table without a ROTANG column is read as {got}, expected {want} (the ellipse row skipped)', {'shapes': list(t['SHAPE'])})
+    ctx.traces += 1
 
 
 _CFG = {}
